@@ -124,8 +124,12 @@ func TestC16Recovery(t *testing.T) {
 			W = 250
 		}
 		nBlocks := rapid.IntRange(20, 90).Draw(t, "nBlocks")
-		if thorough && rapid.IntRange(0, 59).Draw(t, "longChain") == 0 {
-			nBlocks = rapid.IntRange(2001, 2300).Draw(t, "nBlocksLong")
+		long := false
+		if rapid.IntRange(0, 11).Draw(t, "longChain") == 0 {
+			// longer than one recovery batch (2000 blocks): a resumed recovery then
+			// starts from persisted state
+			nBlocks = rapid.IntRange(2040, 2120).Draw(t, "nBlocksLong")
+			long = true
 			c.Class("chain-longer-than-recovery-batch")
 		}
 		created := time.Unix(1_700_000_000, 0)
@@ -138,6 +142,9 @@ func TestC16Recovery(t *testing.T) {
 
 		// ---- the chain, built before the wallet exists -------------------------
 		firstPay := rapid.IntRange(3, nBlocks/2).Draw(t, "firstPayableBlock")
+		if long {
+			firstPay = rapid.IntRange(3, 40).Draw(t, "firstPayableBlockLong")
+		}
 		// monotone timestamps: the block at height firstPay is the first with a
 		// timestamp >= the wallet's creation time
 		ts := created.Add(-time.Duration(firstPay) * 3 * time.Hour)
@@ -161,7 +168,11 @@ func TestC16Recovery(t *testing.T) {
 				before[k] = v
 			}
 			paidNow := map[branchKey]int{}
-			if h >= firstPay && rapid.IntRange(0, 9).Draw(t, "paying") < 4 {
+			payHere := h >= firstPay
+			if long && !(h < firstPay+40 || h > 1960) {
+				payHere = false // keep the long stretch empty (cheap), pay before and after the batch boundary
+			}
+			if payHere && rapid.IntRange(0, 9).Draw(t, "paying") < 4 {
 				nPay := rapid.IntRange(1, 4).Draw(t, "nPayments")
 				if nPay > 1 {
 					multi++
@@ -212,7 +223,7 @@ func TestC16Recovery(t *testing.T) {
 				}
 			}
 			// spends of outputs recovered in earlier blocks
-			if h > firstPay && rapid.IntRange(0, 9).Draw(t, "spending") < 2 {
+			if h > firstPay && payHere && rapid.IntRange(0, 9).Draw(t, "spending") < 2 {
 				var cands []*walletsim.Coin
 				for _, co := range book.Coins(f.Chain) {
 					if co.SpentBy == nil && co.Block != nil {
@@ -282,6 +293,11 @@ func TestC16Recovery(t *testing.T) {
 		case 3:
 			f.Client.FailNth["GetBlockHeader"] = rapid.IntRange(3, 60).Draw(t, "failGetBlockHeader")
 			c.Class("interrupted:GetBlockHeader-fails-once")
+		}
+		if long && rapid.IntRange(0, 3).Draw(t, "interruptSecondBatch") > 0 {
+			// the backend fails once after the first batch has been committed
+			f.Client.FailHeightOnce = int64(rapid.IntRange(2003, nBlocks-1).Draw(t, "failAtHeight"))
+			c.Class("interrupted-after-a-committed-batch")
 		}
 		f.Client.Push(chain.ClientConnected{})
 		if interrupt != 0 && rapid.Bool().Draw(t, "restartMidway") {
